@@ -688,7 +688,7 @@ CATS = {
     "C06": {"stream", "position", "seek", "crash", "open"},
     "C07": {"partition", "count", "crash", "open"},
 }
-ENC_MODELLED = False
+ENC_MODELLED = True
 
 
 def run(ctx, prop, njobs):
